@@ -238,6 +238,7 @@ def run_C16(ctx, R):
         out.out6(units, r, unit_names=('cJSON_Utils.c',))
     _scoped(ctx, R, out6, C16_ENTRIES, 1)
     _per_config(ctx, R, utilsx.pfx1)
+    _per_config(ctx, R, utilsx.own11)
     from .rules import shape
     _per_config(ctx, R, lambda units, r: shape.shp1(units, r, only_unit='cJSON_Utils.c'))
     from .rules import tree
@@ -594,6 +595,8 @@ def run_C07(ctx, R):
     _per_config(ctx, R, own.ref_constructors)
     _per_config(ctx, R, own.own8)
     _per_config(ctx, R, _inl(own.own9))
+    from .rules import utilsx as _ux
+    _per_config(ctx, R, _ux.own11)                 # the utilities hand a whole node over by value (overwrite_item) and free the shell
 
 
 def run_C08(ctx, R):
